@@ -246,7 +246,23 @@ impl Prop for C16 {
                     cx.nontrivial(crate::rt::prng::strhash(&format!("{:?}", b.lef)));
                 }
                 cx.count_n("lef_shapes_generated", nshapes as u64);
-                let lib = match guard(|| LefImporter::import(&b.lef, None)) {
+                // every third import goes into a layer set supplied by the caller (half of them already populated by an earlier import of another
+                // LEF library, the normal way of bringing several files into one technology); the layer names are then read through the
+                // caller's own handle
+                let supplied: Option<raw::utils::Ptr<raw::Layers>> = if cx.rng.chance(1, 3) {
+                    let shared = raw::utils::Ptr::new(raw::Layers::default());
+                    if cx.rng.bool() {
+                        let earlier = build(&mut cx.rng);
+                        let _ = guard(|| LefImporter::import(&earlier.lef, Some(shared.clone())));
+                        cx.count("imports_into_an_already_populated_layer_set");
+                    } else {
+                        cx.count("imports_into_a_supplied_empty_layer_set");
+                    }
+                    Some(shared)
+                } else {
+                    None
+                };
+                let lib = match guard(|| LefImporter::import(&b.lef, supplied.clone())) {
                     Err(c) => {
                         cx.violation(&format!("panic|{}|{}", c.site(), c.norm_msg()), json!({"panic": c.msg, "lef": format!("{:?}", b.lef).chars().take(1500).collect::<String>()}));
                         return;
@@ -272,7 +288,8 @@ impl Prop for C16 {
                     cx.violation("cell-count", detail(&format!("{} cells for {} macros", lib.cells.len(), b.want.len())));
                     return;
                 }
-                let layers = lib.layers.read().unwrap();
+                let layers_ptr = supplied.clone().unwrap_or_else(|| lib.layers.clone());
+                let layers = layers_ptr.read().unwrap();
                 for (cell, (name, size, pins, obs)) in lib.cells.iter().zip(b.want.iter()) {
                     let cell = cell.read().unwrap();
                     let abs = match &cell.abs {
